@@ -44,10 +44,3 @@ Definition cons_inv (c : cons) : Prop :=
 Definition field_inv (f : field) : Prop :=
   incl (odat_files arr_files (f_data f)) (f_orig f) /\
   Forall (fun kc => cons_inv (snd kc)) (f_cons f).
-
-(* symbolic links point at regular files, not at links *)
-Definition wf_fs (fs : fsys) : Prop :=
-  forall l t, zassoc l (links fs) = Some t -> zassoc t (links fs) = None.
-
-(* the regular file that name n resolves to, as it is in fs *)
-Definition content (fs : fsys) (p : fname) : option (Z * nat) := zassoc p (regs fs).
